@@ -177,6 +177,14 @@ def handleOne (entry : String) (j : Json) : Except String Json := do
     let f ← getFloat (← field j "freq")
     let hz ← optFloat j "Hz"
     pure <| erbJson (erbCall st f hz)
+  | "erbmap" =>
+    let st ← optErbStrategy j
+    let fs ← getList getFloat (← field j "freqs")
+    let hz ← optFloat j "Hz"
+    let eager := match erbCallList st fs hz with
+      | .ok vs => Json.mkObj [("values", fls vs)]
+      | .error _ => Json.mkObj [("err", Json.str "ValueError")]
+    pure <| Json.mkObj [("eager", eager), ("lazy", arr erbJson (erbCallLazy st fs hz))]
   | "erb_constants" =>
     let n ← getNat (← field j "n")
     let r : Float × Float := gammatoneErbConstants n
